@@ -4,7 +4,7 @@
 //!               | {"kind":"exec_masm","source":"begin ... end","stack":[..],"advice":[..],"stdlib":bool} ]}
 use miden_assembly::Assembler;
 use miden_core::code_blocks::CodeBlock;
-use miden_core::{Felt, Operation, Program, StackInputs};
+use miden_core::{Felt, Operation, Program, StackInputs, StarkField};
 use miden_processor::{AdviceInputs, DefaultHost, ExecutionOptions, MemAdviceProvider};
 use serde_json::{json, Value};
 use std::panic;
@@ -151,6 +151,22 @@ fn main() {
                     Err(e) => out.push(json!({"status":"assembly_error","error": format!("{e:?}")})),
                     Ok(p) => out.push(run_program(&p, job)),
                 }
+            }
+            "batch_ops" => {
+                // the real Span::new (batch_ops): number of batches, groups and op counts
+                let ops: Vec<Operation> = job["ops"].as_array().unwrap().iter().map(op_from).collect();
+                let span = miden_core::code_blocks::Span::new(ops);
+                let batches: Vec<Value> = span
+                    .op_batches()
+                    .iter()
+                    .map(|b| {
+                        json!({"num_groups": b.num_groups(),
+                               "groups": b.groups().iter().map(|g| g.as_int().to_string()).collect::<Vec<_>>(),
+                               "op_counts": b.op_counts().to_vec(),
+                               "num_ops": b.ops().len()})
+                    })
+                    .collect();
+                out.push(json!({"status":"ok","num_batches": batches.len(), "batches": batches}));
             }
             "trace_check" => {
                 // execute a program and evaluate every main transition constraint of the real AIR
